@@ -157,10 +157,10 @@ def command (m : Mach) (c : String) : Option (String × Mach) :=
   | _ =>
     let (k, v) := splitKV c
     match k, parseOptNat v with
-    | "li", some l => some ("ok", { m with insnLimit := l, meter := 0 })
-    | "ls", some l => some ("ok", { m with stackLimit := l })
-    | "lh", some l => some ("ok", { m with heapLimit := l })
-    | "rec", _ => some ("ok", { m with log := if v == "1" then (if m.log.isSome then m.log else some []) else none })
+    | "li", some l => some ("ok", m.setInsnLimit l)
+    | "ls", some l => some ("ok", m.setStackLimit l)
+    | "lh", some l => some ("ok", m.setHeapLimit l)
+    | "rec", _ => some ("ok", m.setRecording (v == "1"))
     | _, _ => none
 
 def runScript (full : Bool) : List String → Mach → List String → Option (List String)
